@@ -48,6 +48,14 @@ def enumerate_cases(cfg):
         for route in ROUTES:
             if nd == po + pk and route in ('method', 'bound', 'verify'):
                 yield _mk(po, pk, nd, va, ko, kod, kw, route, True)
+            if po == pk == 0 and va and route in ('method', 'bound', 'abc',
+                                                  'verify'):
+                # no named self at all: the instance arrives through *args
+                # (pass-through wrappers; ABC methods written that way -
+                # seed C18h)
+                c = _mk(po, pk, nd, va, ko, kod, kw, route, False)
+                c['starself'] = True
+                yield c
             yield _mk(po, pk, nd, va, ko, kod, kw, route, False)
 
 
@@ -116,7 +124,7 @@ def _source(case, with_self):
     for n, d in zip(pos, defaults):
         rendered.append(n if d is None else '%s=%s' % (n, d))
     npo = len(case['po'])
-    if with_self:
+    if with_self and not case.get('starself'):
         # self joins the positional-only group when there is one
         selfsrc = 'self=None' if case.get('selfdef') else 'self'
         if npo:
@@ -168,7 +176,9 @@ def run_case(case, cfg, out):
         sig = inspect.signature(target)
     elif with_self:
         sig = inspect.signature(func)
-        params = list(sig.parameters.values())[1:]
+        params = list(sig.parameters.values())
+        if not case.get('starself'):
+            params = params[1:]
         sig = sig.replace(parameters=params)
     else:
         sig = inspect.signature(func)
